@@ -279,13 +279,14 @@ func itemsFromFor(
 	var values []any  // The list of values to loop over
 	// Get the list from a matrix
 	if f.Matrix.Len() != 0 {
-		if err := resolveMatrixRefs(f.Matrix, cache); err != nil {
+		matrix, err := resolveMatrixRefs(f.Matrix, cache)
+		if err != nil {
 			return nil, nil, errors.TaskfileInvalidError{
 				URI: location.Taskfile,
 				Err: err,
 			}
 		}
-		return asAnySlice(product(f.Matrix)), nil, nil
+		return asAnySlice(product(matrix)), nil, nil
 	}
 	// Get the list from the explicit for list
 	if len(f.List) > 0 {
@@ -357,22 +358,28 @@ func itemsFromFor(
 	return values, keys, nil
 }
 
-func resolveMatrixRefs(matrix *ast.Matrix, cache *templater.Cache) error {
+// resolveMatrixRefs returns a copy of the matrix in which every row given as a
+// ref has been resolved. The matrix of the task definition is left untouched:
+// it is shared by all (possibly concurrent) calls of the task.
+func resolveMatrixRefs(matrix *ast.Matrix, cache *templater.Cache) (*ast.Matrix, error) {
 	if matrix.Len() == 0 {
-		return nil
+		return matrix, nil
 	}
-	for _, row := range matrix.All() {
-		if row.Ref != "" {
-			v := templater.ResolveRef(row.Ref, cache)
-			switch value := v.(type) {
-			case []any:
-				row.Value = value
-			default:
-				return fmt.Errorf("matrix reference %q must resolve to a list", row.Ref)
-			}
+	resolved := ast.NewMatrix()
+	for key, row := range matrix.All() {
+		if row.Ref == "" {
+			resolved.Set(key, row)
+			continue
+		}
+		v := templater.ResolveRef(row.Ref, cache)
+		switch value := v.(type) {
+		case []any:
+			resolved.Set(key, &ast.MatrixRow{Ref: row.Ref, Value: value})
+		default:
+			return nil, fmt.Errorf("matrix reference %q must resolve to a list", row.Ref)
 		}
 	}
-	return nil
+	return resolved, nil
 }
 
 // product generates the cartesian product of the input map of slices.
